@@ -1173,9 +1173,8 @@ run_task(_task_t t)
 		return -1;
 	}
 
-	if (!(t->nsim < (unsigned int)t->t->max_simul)) {
-		args[2U] = "-nd";
-	}
+	/* ARGS is static, so say so either way */
+	args[2U] = !(t->nsim < (unsigned int)t->t->max_simul) ? "-nd" : NULL;
 
 	/* prep the IPC with echsx */
 	posix_spawn_file_actions_adddup2(&fa, xin[0U], STDIN_FILENO);
@@ -2224,7 +2223,7 @@ task_cb(EV_P_ ev_periodic *w, int UNUSED(revents))
 	/* the task context holds the number of currently running children
 	 * as well as the maximum number of simultaneous children
 	 * if the maximum is running, defer the execution of this task */
-	if (t->nsim < (unsigned int)t->t->max_simul - 1U) {
+	if (t->nsim < (unsigned int)t->t->max_simul) {
 		pid_t p;
 
 		/* indicate that we might want to reuse the loop */
